@@ -9,16 +9,16 @@ import (
 )
 
 func init() {
-	register(&Rule{ID: "C07.R1", Min: 20,
+	register(&Rule{ID: "C07.R1", Min: 13,
 		Text: "range enforcement on every path: in each rounding operation, after the last write of the destination's coefficient or exponent that is not a whole-value copy or a small constant, every path to a result-delivering return passes a call reaching setExponent on that destination (directly or through Rounder.Round); tabled exceptions carry their invariant",
 		Run:  ruleRangeEnforced})
 	register(&Rule{ID: "C07.R2", Min: 3,
 		Text: "a rounding increment is renormalised: every coefficient increment made under a ShouldAddOne guard goes through roundAddOne (which re-counts digits and shifts the carry into the exponent), except the tabled sites whose invariant excludes an extra digit",
 		Run:  ruleIncrementRenormalised})
-	register(&Rule{ID: "C07.R3", Min: 3,
+	register(&Rule{ID: "C07.R3", Min: 1,
 		Text: "coefficients stay non-negative: every subtraction or signed input stored into a destination coefficient is followed by a sign test with Neg/Abs on the negative side",
 		Run:  ruleCoeffSign})
-	register(&Rule{ID: "C07.R4", Min: 2,
+	register(&Rule{ID: "C07.R4", Min: 1,
 		Text: "Context.Reduce strips trailing zeros after rounding: no call reaching Rounder.Round is reachable after the strip, and one precedes it",
 		Run:  ruleReduceOrder})
 }
